@@ -172,6 +172,28 @@ func acceptedIncrease(gs *GroupScan) (time.Time, int64, bool) {
 	var at time.Time
 	var amt int64
 	ok := false
+	// Where the request boundaries on the provider were recorded, "accepted" is what the provider told the
+	// controller: an IncreaseSize that returned without error (refused calls repeated inside it, or a
+	// failed attach retried, are the provider's business). The instant is the last acknowledged cloud
+	// write inside that request.
+	sawReq := false
+	for _, r := range gs.Reqs {
+		if r.Kind != "increase" {
+			continue
+		}
+		sawReq = true
+		if !r.Done || r.Err != "" {
+			continue
+		}
+		for _, c := range gs.Calls {
+			if c.Seq > r.Seq0 && c.Seq <= r.Seq1 && c.Err == "" && (c.Op == OpSetDesired || c.Op == OpAttach) {
+				at, amt, ok = c.T1, r.Delta, true
+			}
+		}
+	}
+	if sawReq {
+		return at, amt, ok
+	}
 	var fleet *Call
 	attached := map[string]bool{}
 	var lastAttach *Call
@@ -371,6 +393,15 @@ func (x *scanCtx) c02() {
 		}
 	}
 	// liveness: the lock never outlives its cool-down
+	if lm != nil && lm.Armed && !a.Locked && a.Clean && a.Kind == kBelowMin {
+		// the cool-down ran out, the group is short of min_nodes and something can be done about it
+		if exp, why := x.expectsAction(); exp {
+			x.check("c02-expired")
+			if len(gs.Calls) == 0 {
+				x.viol("C02", "c02-lock-outlived", "below-min", "", fmt.Sprintf("cool-down %v elapsed %v ago, %s, yet the scan did nothing", g.CoolDown, gs.TList.Sub(lm.At)-g.CoolDown, why))
+			}
+		}
+	}
 	if lm != nil && lm.Armed && !a.Locked && a.Clean && a.Kind == kNormal {
 		exp, strict := x.expectedTaints()
 		if strict && (exp > 0 || onlyBand(a, "up")) && !a.StarveMay && !a.AgeMay {
@@ -1105,7 +1136,19 @@ func (x *scanCtx) c07() {
 	}
 	if len(a.Increase) > 0 {
 		x.check("c07-bought")
+		untaintedNow := map[string]bool{}
+		for _, at := range a.Attempts {
+			if at.Kind == "untaint" && at.Success {
+				untaintedNow[at.Node] = true
+			}
+		}
 		for _, n := range a.Tainted {
+			if a.UntaintAttempted[n.Name] && !a.UntaintFailed[n.Name] && !untaintedNow[n.Name] {
+				// read successfully, found tainted, left tainted - and capacity bought: "a node it could have untainted stays tainted"
+				x.viol("C07", "c07-bought-while-tainted", "read-not-untainted", "", fmt.Sprintf("cloud increase issued while tainted node %s was read (taint present) but no write removing the taint was sent", n.Name), a.Increase...)
+				x.viol("C15", "c15-remove", "not-removed", "", fmt.Sprintf("the scan went to untaint %s (read it, escalator taint present) and bought capacity, but sent no write that removes the taint: untainting must remove exactly that taint", n.Name), a.Increase...)
+				break
+			}
 			if !a.UntaintAttempted[n.Name] {
 				x.viol("C07", "c07-bought-while-tainted", "", "", fmt.Sprintf("cloud increase issued while tainted node %s was never offered for untainting", n.Name), a.Increase...)
 				if annotated(n) {
@@ -1234,15 +1277,20 @@ func (x *scanCtx) c09() {
 		}
 	}
 	if a.Kind != kListErr {
-		cmp("untainted", float64(a.U))
-		cmp("tainted", float64(len(a.Tainted)))
-		cmp("force_tainted", float64(len(a.Force)))
-		cmp("cordoned", float64(len(a.Cordoned)))
-		cmp("nodes", float64(a.N))
-		cf, _ := new(big.Float).SetInt(a.CapCPU).Float64()
-		mf, _ := new(big.Float).SetInt(a.CapMem).Float64()
-		cmp("cpu_capacity", cf)
-		cmp("mem_capacity", mf)
+		// The node-count gauges (nodes, untainted, tainted, force_tainted, cordoned) are not in any property:
+		// what a dashboard counts as "nodes" is the code's business. They are only looked at for reach.
+		for name, want := range map[string]float64{"untainted": float64(a.U), "tainted": float64(len(a.Tainted)), "force_tainted": float64(len(a.Force)), "cordoned": float64(len(a.Cordoned)), "nodes": float64(a.N)} {
+			if got, ok := gs.Gauges[name]; ok && !math.IsNaN(got) && got != want {
+				x.s.stats.Probe("node-count gauge differs from the view's class count (not judged)")
+			}
+		}
+		// capacity is C09's subject: the allocatable of cordoned nodes must not be in it
+		if !a.Fractional {
+			cf, _ := new(big.Float).SetInt(a.CapCPU).Float64()
+			mf, _ := new(big.Float).SetInt(a.CapMem).Float64()
+			cmp("cpu_capacity", cf)
+			cmp("mem_capacity", mf)
+		}
 	}
 }
 
